@@ -371,7 +371,7 @@ class Verdict:
               "repo_hash": repo_hash()}
         if not self.cov.get("samples"):
             self.cov["samples"] = ["(none recorded)"]
-        evdir = EVID if getattr(self, "write_evidence", True) else os.path.join(BUILD, "replay_evidence")
+        evdir = EVID if (getattr(self, "write_evidence", True) and not os.environ.get("VERIF_NO_EVIDENCE")) else os.path.join(BUILD, "replay_evidence")
         os.makedirs(evdir, exist_ok=True)
         with open(os.path.join(evdir, self.pid + ".json"), "w") as f:
             json.dump(ev, f, indent=1, sort_keys=True)
